@@ -50,7 +50,13 @@ def grammar_corpus(chk):
              (("type", "name", "{", "name"), 12 + d, True, False), (("type", "name", "implements"), 10 + d, True, False),
              (("input", "name", "{", "name", ":"), 12 + d, True, False), (("directive", "@", "name", "("), 13 + d, True, False),
              (("enum", "name", "{"), 10 + d, True, False), (("extend", "type", "name"), 10 + d, True, False),
-             (("string",), 8 + d, True, False), (("schema",), 11 + d, True, False)]
+             (("string",), 8 + d, True, False), (("schema",), 11 + d, True, False),
+             # long but narrow: a body-less definition whose directive carries an object literal, followed by other definitions
+             (("type", "name", "@", "name", "(", "name", ":", "{", "name", ":", "int", "}", ")"), 17 + d, True, False)]
+    # constant contexts, swept exhaustively by judged_cases (a variable in place of every scalar / name token; TLC decides)
+    sweep = [(("query", "(", "$", "name", ":", "name", "@", "name", "("), 17 + d, False, False), (("query", "(", "$", "name", ":", "name", "="), 12 + d, False, False),
+             (("type", "name", "@", "name", "("), 11 + d, True, False), (("input", "name", "{", "name", ":", "name", "="), 12 + d, True, False),
+             (("fragment", "fragname", "(", "$", "name", ":", "name", "="), 15 + d, False, True)]
     items = []
     seen = set()
     for start, ts, fv, n in specs:
@@ -69,6 +75,13 @@ def grammar_corpus(chk):
                 k += 1
                 items.append({"toks": s["toks"], "ev": s["ev"], "start": "Document", "ts": ts, "fv": fv})
         chk.count("grammar/focus:%s/ts=%d,fv=%d" % (" ".join(prefix), ts, fv), k)
+    for prefix, n, ts, fv in sweep:
+        sk = corpus.skeletons(chk, "Document", ts, fv, n, prefix=prefix)
+        for s in sk:
+            key = ("Document", ts, fv, tuple(s["toks"]))
+            items.append({"toks": s["toks"], "ev": s["ev"], "start": "Document", "ts": ts, "fv": fv, "sweep": True, "dup": key in seen})
+            seen.add(key)
+        chk.count("grammar/const-sweep:%s/ts=%d,fv=%d" % (" ".join(prefix), ts, fv), len(sk))
     return items
 
 
@@ -111,6 +124,22 @@ def judged_cases(chk, items, rng, nmut, ncross):
         ctx = "mut=%s/prev=%s/next=%s" % (label, kd(i - 1), kd(i + 1))
         traces.append({"toks": [{"k": r["k"], "v": r["v"]} for r in m], "ev": [], "ce": False, "ck": False, "start": start, "ts": it["ts"], "fv": it["fv"]})
         meta.append((m, start, it["ts"], it["fv"], label, ctx))
+    # (iii) constant contexts: a variable in place of every scalar / name token of the swept sentences
+    nsweep = 0
+    for it in items:
+        if not it.get("sweep"):
+            continue
+        text, tokens = corpus.render(it["toks"], rng, compact=True, avoid_keywords=True)
+        recs = corpus.trace_tokens(tokens)
+        for i, r in enumerate(recs):
+            if r["k"] in ("name", "int", "float", "string") and (i == 0 or recs[i - 1]["k"] not in ("$", "@")) and r["v"] not in corpus.KEYWORDS:
+                m = [dict(x) for x in recs]
+                old = m[i]["k"]
+                m[i:i + 1] = [{"k": "$", "v": ""}, {"k": "name", "v": "ident"}]
+                traces.append({"toks": [{"k": x["k"], "v": x["v"]} for x in m], "ev": [], "ce": False, "ck": False, "start": "Document", "ts": it["ts"], "fv": it["fv"]})
+                meta.append((m, "Document", it["ts"], it["fv"], "dollar-sweep", "mut=dollar-sweep:%s/prev=%s" % (old, recs[i - 1]["v"] if i and recs[i - 1]["k"] == "name" else (recs[i - 1]["k"] if i else "SOF"))))
+                nsweep += 1
+    chk.count("const-context sweep cases", nsweep)
     acc = langreplay.tlc_judge(chk, traces, "GqlGrammarTrace judged sequences")
     cases = []
     for idx, (recs, start, ts, fv, label, ctx) in enumerate(meta):
